@@ -24,7 +24,8 @@ as itself").  The identity formatter satisfies the first for `P = FloatLit`
 Obligations: `json_write_no_newline`, `json_write_no_newline_floatfree`,
 `json_first_byte`, `json_roundtrip`, `json_roundtrip_document`,
 `json_roundtrip_floats`, `json_fixed_point`, `json_fixed_point_floats`,
-`json_spellings_partial`, `json_frame_recover`, `json_frame_recover_floats`,
+`json_spellings_partial`, `json_frame_recover`, `json_split_sources`,
+`json_frame_recover_floats`,
 `json_slice_eq_reader_partial`, `json_slice_docs_prefix`,
 `json_reader_ok_is_utf8`, `json_unseparated_counterexample`,
 `json_depth_boundary`, `json_dash_not_value`, `json_own_output_detected`,
@@ -155,6 +156,13 @@ the slice loop (which also accepts the text as UTF-8). -/
 theorem json_frame_recover (F : ExtFloat) (docs : List JVal) (h : docsOk docs) :
     readerLoop (writeDocs F docs) = (docs, .ok) ∧ sliceLoop (writeDocs F docs) = (docs, .ok) :=
   ⟨readerLoop_writeDocs F docs h, sliceLoop_writeDocs F docs h⟩
+
+/-- C03 (`split_sources`) for JSON: documents separated by ANY non-empty runs of
+whitespace (a trailing run after the last one included) are returned in order,
+one by one, by both loops. -/
+theorem json_split_sources (F : ExtFloat) (l : List (JVal × List Nat)) (h : sepsOk l) :
+    readerLoop (joinDocs F l) = (l.map Prod.fst, .ok) ∧ sliceLoop (joinDocs F l) = (l.map Prod.fst, .ok) :=
+  ⟨readerLoop_joinDocs F l h, sliceLoop_joinDocs F l h⟩
 
 /-- The same with floats, under `F.Fixes P`. -/
 theorem json_frame_recover_floats (F : ExtFloat) (P : List Nat → Prop) (hP : F.Fixes P)
@@ -329,6 +337,10 @@ example : docsOk [sample, .null, .int 0] := by
 example : parseValue depthLimit (write markerFloat sample ++ [0x0A]) = .ok (sample, [0x0A]) :=
   json_roundtrip markerFloat sample (by decide) (by decide) [0x0A] (fun h => by simp [isIntVal, sample] at h)
 example : markerFloat.NoNewline := by intro src; simp [markerFloat]
+example : sepsOk [(sample, [0x20, 0x0A]), (.int 5, [0x09]), (.bool true, [0x0D, 0x0A])] := by
+  intro p hp
+  simp at hp
+  rcases hp with rfl | rfl | rfl <;> refine ⟨by decide, by decide, by simp, ?_⟩ <;> simp [isWs]
 example : hasUnseparatedScalar [0x31, 0x20, 0x32] = false := by
   have p1 : parseValue depthLimit [0x31, 0x20, 0x32] = .ok (.int 1, [0x20, 0x32]) := by
     simp [parseValue_eq, skipWs, isWs, classify, isDigit, lexNumber, lexInt, takeDigits, lexFrac, lexExp,
@@ -399,6 +411,7 @@ example (F : ExtFloat) : readerLoop (write F (nestMix 128 (.int 7))) = ([], .err
 #print axioms json_frame_recover_floats
 #print axioms json_spellings_partial
 #print axioms json_frame_recover
+#print axioms json_split_sources
 #print axioms json_slice_docs_prefix
 #print axioms json_reader_ok_is_utf8
 #print axioms json_slice_eq_reader_partial
